@@ -94,12 +94,32 @@ func hC13(cf cfgC13) {
 		}
 	}
 	if cf.ops {
-		switch vChoose("op", 3) {
+		switch vChoose("op", 4) {
 		case 1:
 			vRemoveBoth(idx, m, vIDs[vChoose("target", n)])
 		case 2:
 			vRemoveBoth(idx, m, vIDs[vChoose("target", n)])
 			vFlushBoth(idx, m)
+		case 3: // update: Remove(id), [Flush], Add(id, vector next to a chosen centroid — possibly another cluster)
+			id := vIDs[vChoose("target", n)]
+			vRemoveBoth(idx, m, id)
+			if vChoose("flush_between", 2) == 1 {
+				vFlushBoth(idx, m)
+			} else {
+				// the model forgets the removed entry: a re-added id is live again with the new content only
+				var keep []vRefEntry
+				for _, e := range m.entries {
+					if e.id != id {
+						keep = append(keep, e)
+					}
+				}
+				m.entries = keep
+			}
+			v := vCopy(idx.centroids[vChoose("new_cluster", nlist)])
+			v[0] += 0.125
+			if vAddBoth(idx, m, id, v) {
+				vC13CheckAssigned(idx, m, id)
+			}
 		}
 	}
 	q := vVec("q", dim)
